@@ -234,6 +234,11 @@ def list_dotted_names(fn: Callable) -> Set[str]:
             local_vars = set()  # type: Set[str]
             local_vars.update(code_obj.co_varnames)
             local_vars.update(code_obj.co_cellvars)
+            # A name that this code also loads as a global is a reference, even if a variable
+            # of the same name is among its locals: since Python 3.12 comprehensions are
+            # inlined, so the loop variable of `[g + 1 for g in xs]` is a local of the
+            # enclosing function and would otherwise hide a call of the global `g`.
+            local_vars.difference_update(code_obj.co_names)
             result.difference_update(local_vars)
             # Also remove anything that dereferences a local variable
             to_remove = {
